@@ -323,17 +323,25 @@ class Runner:
 
         # the observation point: what getAll() returns (after a horizon hit: the partial tree, judged without the count)
         nodes = []
-        items = r.r6_tree_graph.getAll()
-        cap = len(items) + 2
-        for it in items:
-            n = it.object
-            chain, m, steps = [], n.getParent(), 0
-            while m is not None and steps < cap:
-                chain.append((P(m), num(m.getCost())))
-                m = m.getParent()
-                steps += 1
-            nodes.append({"pos": P(n), "cost": num(n.getCost()), "chain": chain, "closed": m is None})
-        found = ti.check_structure(nodes, START, None if hit else cfg["budget"], r.r6_tree_graph.getCount(), self.dist, blocked)
+        try:
+            items = r.r6_tree_graph.getAll()
+            count_reported = r.r6_tree_graph.getCount()
+            cap = len(items) + 2
+            for it in items:
+                n = it.object
+                chain, m, steps = [], n.getParent(), 0
+                while m is not None and steps < cap:
+                    chain.append((P(m), num(m.getCost())))
+                    m = m.getParent()
+                    steps += 1
+                nodes.append({"pos": P(n), "cost": num(n.getCost()), "chain": chain, "closed": m is None})
+        except HarnessError:
+            raise
+        except Exception as e:
+            viol.append({"clause": "raised", "observed": "reading the tree back: %s: %s" % (type(e).__name__, str(e)[:200]),
+                         "case": case, "quantities": {"iterations": cfg["budget"]}})
+            return {"key": None, "violations": viol, "stats": {"raised": 1}}
+        found = ti.check_structure(nodes, START, None if hit else cfg["budget"], count_reported, self.dist, blocked)
         try:
             f2, stats = ti.replay_insertions(START, ev, nodes, DMIN, DMAX, cfg["nnl"], self.dist, blocked, complete=not hit)
         except ValueError as e:
@@ -358,9 +366,10 @@ class Runner:
             stats["uniform_accepted"] = stats.get("uniform_accepted", 0.0) + (w if a else 0.0)
         if hit:
             return {"key": None, "violations": viol, "stats": stats}
-        canon = sorted((tuple(round(x, 9) + 0.0 for x in n["pos"]),
+        canon = list((tuple(round(x, 9) + 0.0 for x in n["pos"]),
                         tuple(round(x, 9) + 0.0 for x in n["chain"][0][0]) if n["chain"] else None,
                         round(n["cost"], 9)) for n in nodes)
+        canon = sorted(canon, key=repr)
         key = hashlib.blake2b(repr(canon).encode(), digest_size=8).digest()
         stats["insertions"] = len(nodes) - 1
         stats["path_poses"] = len(path)
